@@ -231,7 +231,16 @@ func checkC05(c *Ctx) error {
 		if strings.HasSuffix(j.key, "/dangling") {
 			args = append(args, "--ignore-missing-services")
 		}
-		run := cli.Do(w, "", nil, dir, out, args...)
+		var run cli.Run
+		if i%4 == 1 {
+			// the output path already holds what the tool generated a moment ago for another, valid configuration
+			var ok bool
+			if run, ok = cli.DoAfter(w, "", nil, dir, out, args...); ok {
+				c.Add("runs_over_an_earlier_generated_output", 1)
+			}
+		} else {
+			run = cli.Do(w, "", nil, dir, out, args...)
+		}
 		files := map[string]string{"input/in.yaml": yaml, "stdout.txt": run.Res.Stdout}
 		for _, b := range run.Contract() {
 			c.Side("C10,C12", "cli-contract:"+sigWords(b), b+"\n"+run.Res.Stdout+run.Res.Stderr, files)
